@@ -24,14 +24,14 @@ CHECKS = {
    text="After every step all replicas are swept: nothing vanishes or changes (digest over every field, also through Get), Len is monotone, previous values are a subsequence; a global shadow detects in-place mutation of entries shared between log instances; every accessor (Heads, RawHeads, Values, snapshot) must hand out the object the log holds under that hash (histories include merges that offer a tampered same-hash look-alike of a held entry, and link keys whose buffer the application wipes later).",
    note="Digest covers payload, id, next, refs, v, key, sig, identity, hash, clock."),
  "C06": dict(cat="exploration", ref="§3 C06", tech="runtime monitor: corruption/policy injection with independent validity model, atomicity by snapshot equality, child processes with journal",
-   text="Seeded corrupted source logs (10 corruption kinds at head/interior/root positions, up to 300 candidates) are merged under 5 access policies; the oracle knows which candidates are invalid or denied and demands error + unchanged log, or success with only valid candidates admitted; identity-less entries; tampered look-alikes of entries the destination already holds offered as heads; denied appends; Verify and merge-into-fresh for every appended entry - the objects Append returned and the ones read back from storage through each loader - under the default, link-encrypting and legacy codecs; logs whose clocks start at 2^60; partial replicas offered a tampered or denied entry exactly under the hash their own entries point to.",
+   text="Seeded corrupted source logs (10 corruption kinds at head/interior/root positions, up to 300 candidates) are merged under 5 access policies; the oracle knows which candidates are invalid or denied and demands error + unchanged log, or success with only valid candidates admitted; identity-less entries; tampered look-alikes of entries the destination already holds offered as heads; denied appends; Verify and merge-into-fresh for every appended entry - the objects Append returned and the ones read back from storage through each loader - under the default, link-encrypting and legacy codecs; logs whose clocks start at 2^60; partial replicas offered a tampered or denied entry exactly under the hash their own entries point to; the merge that FOLLOWS a rejected one compared with a twin that never saw it; partial logs must be mergeable.",
    note="Runs in child processes so that a panic on a verification goroutine is attributed to its input."),
 
  "C07": dict(cat="exploration", ref="§3 C07", tech="runtime monitor: single-field mutation matrix on deep copies of real entries, Verify as observed oracle",
    text="Every appended entry of seeded histories (7 payload classes incl. invalid UTF-8, 0-16 predecessors, 0-7 references, 3 codecs) is copied and ~90 single-field variants are verified: each must fail while the untouched copy passes; at merge level a tampered variant hidden in a chain of 17-60 entries, or offered again after a size-bounded merge validated and trimmed the genuine entry, must not be admitted; the payload replaced by a text rendering of itself (base64, hex, quoted) is a variant like any other. One recorded finding (payloads differing only inside invalid UTF-8 sequences sign identically) is matched narrowly by field + equality after UTF-8 coercion.",
    note="Duplicating a link changes neither membership nor order and is only counted. Identity fields are not in the property's list of signed parts."),
  "C08": dict(cat="exploration", ref="§3 C08", tech="runtime monitor: write/read-back field equality, re-encode CID equality, cross-process CID-list comparison, pinned vectors",
-   text="Seeded corpus written and read back through the real codecs with field-by-field and CID comparisons, manifests, held entry objects re-encoded after logs configured with other codecs tried to merge them, link keys built from a buffer the caller wipes after the first writes, the repository's own pinned interoperability vectors and v0/v1 fixtures re-created with the suite's key material, and the same corpus encoded in 3 child processes (GOMAXPROCS 1/4/16).",
+   text="Seeded corpus written and read back through the real codecs with field-by-field and CID comparisons, manifests, held entry objects re-encoded after logs configured with other codecs tried to merge them, link keys built from a buffer the caller wipes after the first writes, the repository's own pinned interoperability vectors and v0/v1 fixtures re-created with the suite's key material, and the same corpus encoded in 3 child processes (GOMAXPROCS 1/4/16); items preceded by a refused creation on the same codec instance; under the link codec a decoded entry stored again must give the block it came from.",
    note="Pinned values are the literals of test/entry_test.go, test/utils_fixtures_test.go, test/log_load_test.go; nothing new is pinned."),
  "C09": dict(cat="exploration", ref="§3 C09", tech="runtime monitor: reload through 4 loaders against a gated block store that releases requests in adversarial orders; model equality",
    text="At seeded (thorough: all) states of seeded histories each replica is rebuilt without limit through all four loaders under concurrency {1,2,3,8,32} x 6 release policies + ungated; id, entries, heads, values must equal the source. thorough runs race-instrumented.",
@@ -43,10 +43,10 @@ CHECKS = {
    text="Every fault kind (absent, removed, I/O error, undecodable, non-entry block, hang until timeout) at every structural position class (all heads, one head, cut vertex, everything, independent subsets) x exclusion sets x concurrency x completion orders; the event log is checked for double / excluded requests and for the deadline of every request's context (a configured timeout bounds every request, also under a caller deadline), the result against the model's reachability closure, termination by quiescence; through FetchAll and through the manifest loader, default and link-encrypting codec (incl. sealed links with a wrong-length nonce), the entry-hash loader, every spelling of 'no limit' (-1, -2, -100), a legacy-codec chain with a block that never arrives under a fetch timeout; a fifth of the quick cases again under the race detector.",
    note="Fault kinds x position classes are enumerated; subsets and histories are sampled. Termination is bounded progress (quiescent store, timeouts fired), not liveness."),
  "C12": dict(cat="fault_enumeration", ref="§3 C12", tech="hostile-input generation (exhaustive single-edit matrix on generic CBOR/JSON values, truncations at every offset, bit flips, random bytes) decoded under recover + placement runs in journalled child processes",
-   text="Single edits are enumerated exhaustively (field paths x 21 replacement kinds on v2, link-encrypted v2, v1, manifest and v0 templates); multi-edits, bit flips and placements are sampled; every accessor / comparator / Verify / Join is called on whatever decodes; stored logs with hostile blocks at head / interior / root / reference-only positions must load the rest through all loaders with the process alive, the loaded log must keep working (size-bounded merges with every bound class, iteration, append), head lists with 40-240 hostile blocks interleaved load completely at high concurrency; a fifth of the quick placement cases again under the race detector.",
+   text="Single edits are enumerated exhaustively (field paths x 21 replacement kinds on v2, link-encrypted v2, v1, manifest and v0 templates); multi-edits, bit flips and placements are sampled; every accessor / comparator / Verify / Join is called on whatever decodes; stored logs with hostile blocks at head / interior / root / reference-only positions must load the rest through all loaders with the process alive, the loaded log must keep working (size-bounded merges with every bound class, iteration, append), head lists with 40-240 hostile blocks interleaved load completely at high concurrency; a third of the stored histories written with a link key; head blocks that decode but carry an absurd clock time; a fifth of the quick placement cases again under the race detector.",
    note="In-process decode calls run under recover; loader-driven cases run in children so a panic on a fetcher goroutine is attributed through the journal."),
  "C13": dict(cat="exploration", ref="§3 C13", tech="Go race detector + forced-preemption sweep at verif hook points + porcupine linearizability of the mutator history + offline history checker + read-result monitors + deadlock classifier",
-   text="Race-instrumented children run short concurrent histories on one log (free-running, seeded noise, and a sweep parking one worker at every hook point - and while it holds a RawHeads() result - while every other operation kind runs, also with a merge source that is ahead of the log); operation kinds include bounded iterations and merges FROM the shared log; a bounded-merge workload (race / deadlock) and one whose bounds cannot trim (no append may be lost); oracles: race reports with both stacks in the library, state-based deadlock verdicts, exactly-once / real-time-implies-causal / one-chain checks, porcupine against a sequential log model, structural monitors on every read; after each history one more publication must name the log's current heads.",
+   text="Race-instrumented children run short concurrent histories on one log (free-running, seeded noise, and a sweep parking one worker at every hook point - and while it holds a RawHeads() result - while every other operation kind runs, also with a merge source that is ahead of the log); operation kinds include bounded iterations and merges FROM the shared log; a bounded-merge workload (race / deadlock) and one whose bounds cannot trim (no append may be lost); oracles: race reports with both stacks in the library, state-based deadlock verdicts, exactly-once / real-time-implies-causal / one-chain checks, porcupine against a sequential log model, structural monitors on every read; after each history one more publication must name the log's current heads; a quarter of the appends are pinned (the pin service takes 2 ms).",
    note="Interleavings are sampled; the sweep is exhaustive only at hook granularity with one preemption. Reads are not required to be linearizable."),
  "C14": dict(cat="exploration", ref="§3 C14", tech="offline window checker over exactly recorded single-mutator state chains + directed parking between the source reads + deadlock classifier + race detector",
    text="Live-append, live-merge, cross-merge, ring, four-party, stalled-reader, ladder (logical step bound), after-refusals, hub, constant-size-source, busy-source (one append to the source completes after every read the merge makes of it; termination decided on logical steps) and shrinking-source (a size-bounded merge into the source between the two reads - the recorded finding) scenarios; every merge result must be before U S_i for a source state S_i recorded inside the call/return window, with heads an exact function of the result, causal closure w.r.t. all entries ever created, and termination.",
@@ -58,16 +58,16 @@ CHECKS = {
    text="For pairs of replicas of seeded histories and every bound the bounded merge is compared with the tail of the twin's unbounded linearisation; heads against the model; sequences of two bounded merges (first bound 0..total-1) followed by an append; pairs under the legacy codec (CIDv0 identifiers), sources trimmed before, sources ending in empty / nil payloads, pairs whose past holds refused operations; under an ordering with ties the same bounded merge on a replay twin must keep the same entries.",
    note="Sequence comparison only where the ordering is total on the merged set; counts/heads always."),
  "C17": dict(cat="fault_enumeration", ref="§3 C17", tech="online closure assertion inside the store's Add (under its mutex) + crash-point enumeration: reload of every published hash from every store prefix; injected write failures",
-   text="Every block write of seeded histories is checked for causal closure with the codec in use; every returned manifest / entry hash / head list is reloaded from the store prefix at its return and from later prefixes (thorough: every later prefix) and compared (log id, entries, heads, values) with the state recorded at that moment; store outages of 1, 2, 3 or 6 consecutive block writes, and a context that ends while the write is pending at a store that honours contexts: an operation during which the store refused a write must fail, leave the log unchanged and never return a hash the store does not hold; in half of the histories one recovering process performs all reloads with one reused options value.",
+   text="Every block write of seeded histories is checked for causal closure with the codec in use; every returned manifest / entry hash / head list is reloaded from the store prefix at its return and from later prefixes (thorough: every later prefix) and compared (log id, entries, heads, values) with the state recorded at that moment; store outages of 1, 2, 3 or 6 consecutive block writes, and a context that ends while the write is pending at a store that honours contexts: an operation during which the store refused a write must fail, leave the log unchanged and never return a hash the store does not hold; in half of the histories one recovering process performs all reloads with one reused options value; payloads that are not text, content compared on reload; a log started without a link key and continued with one.",
    note="Crash = loss of all block writes after a prefix; single block writes are atomic. Reload clauses under default and link codecs; closure assertion under all three."),
  "C18": dict(cat="exploration", ref="§3 C18", tech="runtime monitor: byte-pattern search on raw blocks captured at Add time (8 encodings per link) + three independent reader codecs (same / no / other key)",
-   text="For every appended entry with links under a link key: no encoding of any link in the stored bytes, no traversable IPLD links, same-key reader recovers identical lists, verifies, loads and merges the log (also four same-key readers merging one loaded log at the same time; twin entries with different pointer counts written through one codec instance); readers whose key differs in one bit (all 256), no-key and other-key readers obtain no links; every entry a link-key replica holds (created, loaded with or without the key, hand-built) is stored AGAIN through the keyed codec and the new block scanned.",
+   text="For every appended entry with links under a link key: no encoding of any link in the stored bytes, no traversable IPLD links, same-key reader recovers identical lists, verifies, loads and merges the log (also four same-key readers merging one loaded log at the same time; twin entries with different pointer counts written through one codec instance); readers whose key differs in one bit (all 256), no-key and other-key readers obtain no links; every entry a link-key replica holds (created, loaded with or without the key, hand-built, copies, the writer's object after another key's Verify) is stored AGAIN through the keyed codec and the new block scanned and read with the same and another key; links that are CIDv0 identifiers.",
    note="Nonce reuse / ciphertext indistinguishability are not observable by this monitor."),
  "C19": dict(cat="exploration", ref="§3 C19", tech="exhaustive axiom evaluation over a finite synthetic domain (39204 pairs, 7.76M triples) + all permutations of sampled multisets + draws from real histories",
-   text="Domain: 11 clock times (incl. 10^10, 2^40, 2^53, 2^53+1, 2^62, MaxInt) x 6 clock ids x 3 hashes, plus 27 identifiers of mixed CID versions over 9 digests. Irreflexivity, totality, antisymmetry, transitivity, causality-respect, default = hash-tiebreak on distinct clocks, first-write-wins = reverse, NoZeroes transparency, Sort permutation/determinism, independence from an entry object's history (objects compared before and then re-hashed / re-clocked compare like fresh ones). The pair/triple axioms are enumerated completely over the stated domain (exhaustive: true).",
+   text="Domain: 11 clock times (incl. 10^10, 2^40, 2^53, 2^53+1, 2^62, MaxInt) x 6 clock ids x 3 hashes, plus 27 identifiers of mixed CID versions over 9 digests. Irreflexivity, totality, antisymmetry, transitivity, causality-respect, default = hash-tiebreak on distinct clocks, first-write-wins = reverse, NoZeroes transparency, Sort permutation/determinism (also for lists with one undefined element), one unhashed entry among hashed ones, independence from an entry object's history (objects compared before and then re-hashed / re-clocked compare like fresh ones). The pair/triple axioms are enumerated completely over the stated domain (exhaustive: true).",
    note="Clock times are non-negative as in every entry the library creates."),
  "C20": dict(cat="exploration", ref="§3 C20", tech="runtime monitor: reference map id -> key bytes over seeded interleavings across keystore instances sharing an instrumented datastore; identity clauses verified directly with libp2p",
-   text="1-4 real Keystore instances over one datastore, up to 400 ids (beyond the 128-entry cache), restarts; HasKey/GetKey on every instance after every creation; identity stability (also after requests and identity creations under an ended context, on context-honouring and context-ignoring datastores) and the three signature clauses, also for the identity a reader decodes from a stored entry; path-like ids, the empty id, keys created again, keystores over another datastore, one provider object serving two identities; a read that is pending while the key is created through another keystore (the request started afterwards must see the key); identity creation retried with the same options value after a failed datastore write; concurrent use of shared instances under the race detector (quick: a slice, thorough: all).",
+   text="1-4 real Keystore instances over one datastore, up to 400 ids (beyond the 128-entry cache), restarts; HasKey/GetKey on every instance after every creation; identity stability (also after requests and identity creations under an ended context, on context-honouring and context-ignoring datastores) and the three signature clauses, also for the identity a reader decodes from a stored entry; path-like ids, the empty id, keys created again, keystores over another datastore, one provider object serving two identities; a read that is pending while the key is created through another keystore (the request started afterwards must see the key); identity creation retried with the same options value after a failed datastore write; identities named like an earlier identity id; concurrent use of shared instances under the race detector (quick: a slice, thorough: all).",
    note="Each id is created once (a second raw CreateKey on the same id replaces the key and is outside 'a key once created'). One recorded finding: ids that differ only by path cleaning (doubled separators, dot segments) share one datastore key; matched narrowly (the probe checks that both ids clean to the same key)."),
 }
 PENDING = {}
